@@ -27,10 +27,23 @@ def alphabets():
     return out
 
 
+def prefixes():
+    src = open(os.path.join(tlc.SPEC_DIR, "MCHist.tla")).read()
+    out = {}
+    for m in re.finditer(r"^(PX_\w+) == <<(.*)>>\s*$", src, re.M):
+        out[m.group(1)] = [[int(x) for x in t.split(",")] for t in re.findall(r"<<([^<>]+)>>", m.group(2))]
+    return out
+
+
+# alphabet -> (prefix, suite)
+ALPHA_CFG = {"HC_D": ("PX_D", "struct4")}
+
+
 def design(name, depth, scratch, suite, log):
     consts = dict(suite["tla"])
     consts.update({"Fixes": tlc.tla_set(cf.ALL_FIXES), "Depth": str(depth), "MaxId": "10",
-                   "RegCust": "FALSE", "HistCalls": f"<- {name}"})
+                   "RegCust": "FALSE", "HistCalls": f"<- {name}",
+                   "Prefix": "<- " + ALPHA_CFG.get(name, ("PX_none", ""))[0]})
     cfgp = os.path.join(scratch, f"design_{name}.cfg")
     open(cfgp, "w").write(tlc.cfg_text(constants=consts, constraint="Bound",
                                         invariants=["AtTimeline", "RetUndo", "RetRedo", "NoopAtEnds", "StateInv"],
@@ -125,9 +138,14 @@ def run(prop, tier, seed, replay_path=None):
     design_info, ses_info, violations, drift = [], [], [], []
     tot_sessions = tot_steps = tot_ur = 0
     try:
+        pre = prefixes()
+        plans = []
         for name in sorted(alph):
-            design_info.append(design(name, ddepth, scratch, s3, log))
-        plans = [(s3, {"mode": "exhaustive", "alphabet": alph[name], "length": slen}, name) for name in sorted(alph)]
+            pname, sname = ALPHA_CFG.get(name, ("PX_none", "struct3"))
+            suite = cf.SUITES[sname]
+            design_info.append(design(name, ddepth, scratch, suite, log))
+            plans.append((suite, {"mode": "exhaustive", "alphabet": alph[name], "length": slen,
+                                  "prefix": pre.get(pname, [])}, name))
         nrand = 400 if tier == "quick" else 6000
         plans.append((s4, {"mode": "random", "count": nrand, "length": 40, "seed": seed, "kinds": [1, 2, 3, 4, 5, 6],
                            "p_undo": 0.28, "p_redo": 0.2}, "random4"))
